@@ -35,6 +35,20 @@ def via_builder(prog, seed=None, native=None):
     class Unresolvable(Exception):
         pass
 
+    def num(x):
+        """A number as a user's computation may deliver it: a numpy scalar of the same value."""
+        if seed is None or isinstance(x, bool) or not isinstance(x, (int, float)) or rng.random() > 0.2:
+            return x
+        import numpy as np
+
+        if isinstance(x, int):
+            if abs(x) >= 2 ** 62:
+                return x
+            choices.append("numpy-integer")
+            return np.int64(x)
+        choices.append("numpy-float")
+        return np.float64(x)
+
     def peek():
         """Build the circuit as it stands (a builder makes "a full Circuit on demand") and go on adding to the
         child builders handed out earlier: the final build must see everything."""
@@ -84,7 +98,7 @@ def via_builder(prog, seed=None, native=None):
             if must:
                 raise Unresolvable(a)
             return a
-        return a
+        return num(a)
 
     def count_arg(c, params, must):
         if isinstance(c, str) and c not in params:
@@ -92,7 +106,7 @@ def via_builder(prog, seed=None, native=None):
                 return objs[c]
             if must:
                 raise Unresolvable(c)
-        return c
+        return num(c)
 
     def emit(bb, s, params, must):
         k = s[0]
@@ -146,12 +160,12 @@ def via_builder(prog, seed=None, native=None):
             b.usepulses(s[1], s[2] if len(s) > 2 else all, unevaluated=not e)
         elif k == "let":
             e = eager()
-            r = b.let(s[1], s[2], unevaluated=not e)
+            r = b.let(s[1], num(s[2]), unevaluated=not e)
             if e:
                 objs[s[1]] = r
         elif k == "register":
             e = eager() and not (isinstance(s[2], str) and s[2] not in objs)
-            r = b.register(s[1], (objs[s[2]] if isinstance(s[2], str) else s[2]) if e else s[2], unevaluated=not e)
+            r = b.register(s[1], (objs[s[2]] if isinstance(s[2], str) else num(s[2])) if e else num(s[2]), unevaluated=not e)
             if e:
                 objs[s[1]] = r
         elif k == "map":
